@@ -239,6 +239,10 @@ def run(ctx, rep):
     R5 = rep.rule('C16.R5', 'tree builder: counts accumulate over children, leaves are exactly single-branch structures')
     bb = m.func(TAB, 'Tableau.Tree._build_branches')
     augs = {astq.u(n.target): astq.u(n) for n in ast.walk(bb) if isinstance(n, ast.AugAssign)}
+    for n in ast.walk(bb):          # `x = x + ...` accumulates just as well
+        if isinstance(n, ast.Assign) and len(n.targets) == 1 and isinstance(n.value, ast.BinOp) and isinstance(n.value.op, ast.Add) \
+                and astq.u(n.targets[0]) in [astq.u(x) for x in ast.walk(n.value) if isinstance(x, ast.Attribute)]:
+            augs[astq.u(n.targets[0])] = astq.u(n).replace(' = ', ' += ', 1)
     for tgt in ('tree.descendant_node_count', 'tree.width'):
         ok = tgt in augs and '+=' in augs[tgt]
         rep.instance(R5, ok=ok, nontrivial=tgt)
